@@ -12,7 +12,7 @@ claimed = {
  "C14": ("bit-field extraction: GetBitsAsUint64 and GetBitsAsInt64 verified in bit-vector mode (exact Go shift/mask/wrap semantics) against the bitwise statement of the property; the loop is covered by an inductive invariant with a complete 65-way case split on the iteration number; 1016 bridge lemmas tie the bitwise contract to the byte-arithmetic reading used by all int-mode callers", "6 C14"),
  "C04": ("MSM4/MSM7 functional decoding: GetMSMHeader gives every header field, the satellite and signal lists and the cell matrix as functions of the frame bits (cnthi rank function over the masks, with lemmas proved by induction); both GetSatelliteCells give every satellite-cell field as bits/sbits at its field-major position; both GetSignalCells give, under loop invariants over the mask walk, every cell of the matrix as the cell the mask puts there (Row4OK/Row7OK: rank, signal id, attached satellite cell, every field as bits/sbits at position start + width x N + width x rank, signed fields two's complement) and accept every message long enough for the cells the mask announces; both GetMessage compose these into statements over the frame alone, none of which mentions the frame length (padding independence) and accept every well-formed message; all for every mask shape, field value and padding length (no bound)", "6 C04"),
  "C05": ("1005/1006: GetMessage postconditions give every field as the bit field of the property's layout (signed fields as two's complement over the full 38-bit range) and the exact acceptance condition (length and type); the display clause is an argument-flow obligation at the Sprintf call: the value reaching each %.4f verb is within 1e-6 of integer x 0.0001 in the floating-point rounding model; the decoders' safety obligations are part of the check (rejection with an error, not a panic, for every short input)", "6 C05"),
- "C18": ("recent-message queue: representation invariant (keys form the interval of the last n sequence numbers, n <= capacity) and a ghost history of all additions; NewCircularQueue establishes it, Add preserves it and states the whole new view (count min(n+1,N), new message at the new sequence number, every other held message unchanged), GetMessages returns exactly the held messages in sequence order; unbounded in capacity and history; the concurrent clause is a whole-program lock-discipline obligation (guarded fields only under the RWMutex, not touched outside the package) plus the assumption that RWMutex gives mutual exclusion; every field of the queue, present or added later, is subject to the lock-held obligation (reads under RLock/Lock, writes under Lock)", "6 C18"),
+ "C18": ("recent-message queue: representation invariant (keys form the interval of the last n sequence numbers, n <= capacity) and a ghost history of all additions; NewCircularQueue establishes it, Add preserves it and states the whole new view (count min(n+1,N), new message at the new sequence number, every other held message unchanged), GetMessages returns exactly the held messages in sequence order; unbounded in capacity and history; the concurrent clause is a whole-program lock-discipline obligation (guarded fields only under the RWMutex, not touched outside the package) plus the assumption that RWMutex gives mutual exclusion; every field of the queue, present or added later, is subject to the lock-held obligation (reads under RLock/Lock, writes under Lock); the key enumeration getKeysInAscendingOrder is proved too (range over a map modelled by its language semantics, sort.Ints by an assumed contract, a lemma by induction for the interval corollary), so no function of the repository carries an assumed contract", "6 C18"),
  "C19": ("proxy: both relay loops are proved against prophecy connections (any chunking, errors anywhere, data together with an error) and ghost write logs - at every iteration the bytes written to the peer are exactly the bytes read, in order, independent of content; the client-side loop also sends the same bytes to the parser channel, and the frame obligations show that recording a chunk for the report and parsing cannot change it before it is forwarded; the status page is covered by argument-flow obligations at the final Sprintf: the two hex dumps and the message list reach the constant template free of '<' and '>' (Sanitise contract over assumed strings.Replace, loop invariant over the message list), and by the lock-held structural obligation on the report feed's buffers.  TCP/TLS behaviour, the HTTP layer of statusreporter, liveness when the parser stalls, and behaviour after a failed Write are not decided; the proxy's parser goroutine is part of the cone: its safety obligations (no panic on any input) and its lossless-consumption clauses are decided here too", "6 C19"),
  "C20": ("classification: package initialisation establishes the two MSM maps exactly (global-init obligations) and nothing else writes them (whole-program structural obligation); MSM4/MSM7/MSM, GetConstellation, getMSMType, the four decoders' type rejection, GetMessage's timestamp guard, Analyse's dispatch and GetTitleAndComment's non-empty title are postconditions over a symbolic message type, i.e. for all integers", "6 C20"),
  "C06": ("UTC conversion across rollovers: one inductive step over ghost truth (start time T, per constellation the true time u of the last accepted observation and a seen flag): New establishes the relation between the handler's week starts / previous timestamps and the truth, and GetMessage preserves it while reporting exactly the true time and week start for every timestamp that encodes a time satisfying the property's hypotheses; illegal timestamps give an error and leave the state untouched; the other constellations' state is framed; all start times, zones (through In(UTC)), histories and interleavings are covered by the induction", "6 C06"),
